@@ -471,6 +471,31 @@ def run2(case, storage_content, now2, watch):
     return out
 
 
+def run2_other(storage_content, now2):
+    """the storage attached to a circuit that has none of the old blocks and no persistent block at
+    all; -> keys left after the start"""
+    out = {}
+
+    async def scenario(loop):
+        harness.reset()
+        circuit = edzed.get_circuit()
+        edzed.Input('plain', initdef=0)
+        edzed.Counter('volatile')
+        storage = harness.DeepCopyDict(storage_content)
+        storage['junk3'] = 3
+        storage['edzed-mine'] = 4
+        circuit.set_persistent_data(storage)
+        async with harness.Running() as sim:
+            if sim.init_error is not None:
+                out['init_error'] = repr(circuit.error)
+                return
+            out['keys'] = sorted(storage.snapshot())
+
+    harness.run_case(scenario, wall_start=EPOCH + _dt.timedelta(microseconds=round(now2 * 1e6)),
+                     read_latency_us=1)
+    return out
+
+
 def run2_failed(case, storage_content, now2, mode):
     """a restart whose start-up fails before any block is initialised; -> storage afterwards"""
     out = {}
@@ -536,6 +561,8 @@ def execute(case):
     evals = 1
     both_sides = set()
     failed_restart_done = failed_restart_checked = False
+    other_done = False
+    tag_other = 'restart with other blocks: '
     exp_decided = False
     chosen = range(len(snaps)) if case.get('all_snaps') else sorted({r['snap'] % len(snaps) for r in case['restarts']})
     downs_for = {}
@@ -593,6 +620,19 @@ def execute(case):
             r2 = run2(case, stor, now2, watch)
             ctrl = run2(case, None, now2, {})
             evals += 2
+            if not other_done:
+                other_done = True
+                ro = run2_other(stor, now2)
+                evals += 1
+                if 'init_error' in ro:
+                    res.fail('C06.restart_failed', tag_other + ro['init_error'])
+                else:
+                    stale = [k for k in ro['keys'] if not k.startswith('edzed-')]
+                    if stale:
+                        res.fail('C06.unused_not_removed', f"storage attached to a circuit without the old blocks "
+                                 f"(and without any persistent block): entries {stale} are still there")
+                    if 'edzed-mine' not in ro['keys']:
+                        res.fail('C06.reserved_removed', f"circuit without persistent blocks: keys {ro['keys']}")
             if case.get('fail2') and not failed_restart_done:
                 failed_restart_done = True
                 rf = run2_failed(case, stor, now2, case['fail2'])
